@@ -51,7 +51,7 @@ theorem sumTo_list {α : Type} [AddCommMonoid α] (l : List Nat) (f : Nat → α
     rw [List.length_append, List.length_singleton, sumTo, List.map_append, List.sum_append, ← ih]
     congr 1
     · apply sumTo_congr; intro k hk
-      simp [replSrc, List.getD_append, hk]
+      simp [replSrc, List.getElem?_append_left hk, hk]
     · simp [replSrc]
 
 /-- the central identity: a sum over the replicated rows is the weighted sum over the original rows -/
